@@ -65,11 +65,33 @@ Json gen(sim::Rng& rng, int tier)
         ji.a[rng.below(static_cast<u64>(issuers))].push(q);
     }
     p["issuers"] = ji;
+    // some issuers work sequentially: the next request goes out the moment the previous one is settled - onto the
+    // connection that has just become free (and that a closing server is about to take away)
+    if (rng.chance(closing_server ? 0.7 : 0.3)) {
+        Json ch = Json::array();
+        for (int i = 0; i < issuers; ++i) ch.push(rng.chance(0.7));
+        p["chained"] = ch;
+    }
     p["latency_us"] = static_cast<int>(5 + rng.below(500));
     gen_sched(rng, p, 6000, true);
     // another part of the application keeps connections of its own to the same server and opens one whenever it
     // likes - in particular right after the client released a descriptor, which then gets the same number
     if (rng.chance(closing_server ? 0.6 : 0.2)) p["other_connections"] = static_cast<int>(rng.range(1, 4));
+    // in part of the runs one or two kinds of decision point of the client's own code paths are "hot": a thread
+    // that gets there is often descheduled for milliseconds (between queueing a request and notifying the
+    // transport, between a claim and the use of the connection, ...)
+    if (rng.chance(closing_server ? 0.6 : 0.3)) {
+        static const char* kSites[] = { "sys.write", "sys.read", "sys.send", "sys.recv", "sys.socket", "sys.connect", "sys.close", "sys.epoll_ctl",
+                                        "queue.push.exchange", "queue.push.link", "queue.pop.load", "promise.then.check", "promise.resolve.check",
+                                        "mutex.lock", "mutex.unlock", "sys.timerfd_settime", "atomic", "sys.epoll_wait" };
+        Json hs = Json::array();
+        int n = static_cast<int>(rng.range(1, 2));
+        for (int i = 0; i < n; ++i) hs.push(std::string(kSites[rng.below(sizeof kSites / sizeof kSites[0])]));
+        p["sched"]["hot_sites"] = hs;
+        p["sched"]["hot_pause_permille"] = static_cast<int>(100 + rng.below(500));
+        p["sched"]["pause_max_us"] = static_cast<int>(500 + rng.below(20000));
+        p["sched"]["max_pauses"] = static_cast<int>(4 + rng.below(30));
+    }
     return p;
 }
 
@@ -332,9 +354,18 @@ void run(const Json& plan)
     for (size_t i = 0; i < per_issuer.size(); ++i) {
         issuers.emplace_back([&, i] {
             sim::set_self_name(("issuer" + std::to_string(i)).c_str());
+            const bool chained = plan.get("chained").at(i).as_int() != 0;
+            ReqState* prev = nullptr;
             for (ReqState* rs : per_issuer[i]) {
                 i64 d = srv.cfg[rs->tag].num("issue_delay_us", 0) * 1000;
-                if (d > 0) sim::sleep_ns(d);
+                if (chained && prev) {
+                    const ReqState* pv = prev;
+                    const std::function<bool()> settled = [pv] { return pv->fulfilled + pv->rejected > 0; };
+                    sim::IgnoreScope ig;
+                    sim::block_until(settled, sim::now_ns() + 10LL * 1000000000LL, "issuer.wait-previous");
+                } else if (d > 0)
+                    sim::sleep_ns(d);
+                prev = rs;
                 auto rb = client.get("http://127.0.0.1:" + std::to_string(srv.port) + "/r/" + std::to_string(rs->tag));
                 if (rs->timeout_ms > 0) rb.timeout(std::chrono::milliseconds(rs->timeout_ms));
                 {
